@@ -1,4 +1,5 @@
 import Jwt.Lemmas.Verify
+import Jwt.Generated.GateTables
 /-! The strength/family gates, as an explicit rule, and what the crypto trace can contain. -/
 namespace Jwt
 
@@ -14,6 +15,17 @@ def strengthOk (a : Alg) (k : KeyItem) : Prop :=
   | .es512 => k.kty = .ec ∧ k.bits = 521
   | .eddsa => k.kty = .okp ∧ (k.bits = 256 ∨ k.bits = 456)
   | .none | .inval => False
+
+/-- **The documented rule is what `jwt.c` tests** (generated from `__check_hmac` / `__check_key_bits`): for
+every algorithm and key, `strengthOk` holds exactly when the size test of the algorithm's case lets
+`key->bits` through and the key has the type that case hands to `__check_key_type`. A changed floor, a
+`>=` turned `>`, a case moved to another type fails here at build time. -/
+theorem strengthOk_iff_generated (a : Alg) (k : KeyItem) :
+    strengthOk a k ↔ (Generated.gateSize a k.bits ∧ Generated.gateType a = some k.kty) := by
+  cases a <;> simp only [strengthOk, Generated.gateSize, Generated.gateType, Option.some.injEq] <;>
+    first
+      | exact ⟨fun ⟨h1, h2⟩ => ⟨h2, h1.symm⟩, fun ⟨h1, h2⟩ => ⟨h2.symm, h1⟩⟩
+      | exact ⟨fun h => h.elim, fun h => h.1⟩
 
 def Alg.isHmac : Alg → Bool | .hs256 | .hs384 | .hs512 => true | _ => false
 def Alg.isPk : Alg → Bool
